@@ -12,6 +12,16 @@ From Ka Require Import Model.Calendar.
 Local Open Scope Z_scope.
 Ltac Zify.zify_post_hook ::= Z.to_euclidean_division_equations.
 
+(* boolean comparisons in hypotheses -> propositions *)
+Ltac zb := repeat match goal with
+  | H : (_ =? _) = true |- _ => apply Z.eqb_eq in H
+  | H : (_ =? _) = false |- _ => apply Z.eqb_neq in H
+  | H : (_ <=? _) = true |- _ => apply Z.leb_le in H
+  | H : (_ <=? _) = false |- _ => apply Z.leb_gt in H
+  | H : (_ <? _) = true |- _ => apply Z.ltb_lt in H
+  | H : (_ <? _) = false |- _ => apply Z.ltb_ge in H
+  end.
+
 (* ---- soundness of the counter ------------------------------------------------------------- *)
 Lemma all_from_sound n : forall z f, all_from n z f = true ->
   forall k, z <= k < z + Z.of_nat n -> f k = true.
@@ -37,11 +47,11 @@ Qed.
    (stated on the unfolded forms so that later uses match syntactically and the kernel never
    has to unroll the counter during conversion) *)
 Lemma era_check_days_true : all_below (Z.to_nat DAYS_PER_ERA) day_ok = true.
-Proof. vm_compute. reflexivity. Qed.
+Proof. vm_cast_no_check (eq_refl true). Qed.
 Lemma era_check_dates_true :
   all_below 400 (fun yoe => all_below 12 (fun m0 => all_below 31 (fun d0 =>
     date_ok yoe (m0 + 1) (d0 + 1)))) = true.
-Proof. vm_compute. reflexivity. Qed.
+Proof. vm_cast_no_check (eq_refl true). Qed.
 
 Lemma DAYS_PER_ERA_nonneg : 0 <= DAYS_PER_ERA.
 Proof. unfold DAYS_PER_ERA. lia. Qed.
@@ -108,7 +118,7 @@ Proof.
   { unfold DAYS_PER_ERA in *. lia. }
   rewrite He.
   replace (era * DAYS_PER_ERA + doe - era * DAYS_PER_ERA) with doe by lia.
-  rewrite Hc. f_equal; [f_equal|]; subst yoe y'; lia.
+  rewrite Hc. replace (yoe + era * 400 + shift m) with y by (subst yoe y'; lia). reflexivity.
 Qed.
 
 Theorem days_from_civil_from_days n :
@@ -152,21 +162,21 @@ Proof.
   lia.
 Qed.
 
+
 (* every date of year y lies between the ends of years y-1 and y *)
 Lemma days_from_civil_year_bounds y m d : valid_date y m d = true ->
   days_before_year_end (y - 1) <= days_from_civil y m d < days_before_year_end y.
 Proof.
-  intro Hv. destruct (valid_date_bounds y m d Hv) as (Hm & Hd & _).
-  rewrite days_from_civil_closed. unfold shift.
-  assert (Hdim : days_in_month y m <= (if m =? 2 then 29 else if (m =? 4) || (m =? 6) || (m =? 9) || (m =? 11) then 30 else 31)).
-  { unfold days_in_month. destruct (m =? 2); [destruct (is_leap y); lia|lia]. }
-  unfold days_before_year_end, doy_of.
-  destruct (m <=? 2) eqn:E.
-  - apply Z.leb_le in E.
-    assert (m = 1 \/ m = 2) as [->| ->] by lia; cbn in Hdim; lia.
-  - apply Z.leb_gt in E.
-    assert (m = 3 \/ m = 4 \/ m = 5 \/ m = 6 \/ m = 7 \/ m = 8 \/ m = 9 \/ m = 10 \/ m = 11 \/ m = 12)
-      as [->|[->|[->|[->|[->|[->|[->|[->|[->| ->]]]]]]]]] by lia; cbn in Hdim; lia.
+  intro Hv. destruct (valid_date_bounds y m d Hv) as (Hm & Hd & Hdim).
+  rewrite days_from_civil_closed. unfold shift, days_before_year_end, doy_of.
+  destruct (m =? 2) eqn:E2.
+  - zb. subst m. unfold days_in_month, is_leap in Hd.
+    change (2 =? 2) with true in Hd. change (2 <=? 2) with true. cbv iota in *.
+    destruct (y mod 4 =? 0) eqn:L4; destruct (y mod 100 =? 0) eqn:L100;
+      destruct (y mod 400 =? 0) eqn:L400; cbn [andb orb negb] in Hd; zb; lia.
+  - zb. destruct (m <=? 2) eqn:E; zb.
+    + assert (m = 1) by lia. subst m. lia.
+    + lia.
 Qed.
 
 Lemma days_before_year_end_mono a b : a <= b -> days_before_year_end a <= days_before_year_end b.
